@@ -1,4 +1,102 @@
+(* C03 -- Every callRemote resolves exactly once, whatever happens to the connection.
+   Property theorems only; proofs live in lib/RequestsProofs.v.  `run ops` is the state of the calling Broker
+   after an ARBITRARY finite sequence of: callRemote / callRemoteOnly / locally rejected call, answer / error /
+   answer-violation arriving for any request id, complete() or fail() invoked on any request object at any time
+   (send failure, late answer), connectionLost / shutdown, and turns of the eventual-send queue. *)
 From Coq Require Import ZArith List Bool.
+Import ListNotations.
 Require Import Verif.gen.RequestsGen Verif.lib.Requests Verif.lib.RequestsProofs.
-Theorem C03_placeholder : True. Proof. exact placeholder. Qed.
-Print Assumptions C03_placeholder.
+Local Open Scope Z_scope.
+
+(* "nothing fires twice": for every interleaving, every Deferred has been fired at most once *)
+Theorem C03_at_most_once : forall ops h c,
+  get (run ops) h = Some c -> (List.length (c_fires c) <= 1)%nat.
+Proof. exact at_most_once. Qed.
+Print Assumptions C03_at_most_once.
+
+(* "... or fires after having fired": once a Deferred has fired with outcome o, no continuation of the history
+   changes that (one firing, same outcome) *)
+Theorem C03_first_outcome_is_final : forall ops1 ops2 h c o,
+  get (run ops1) h = Some c -> c_fires c = [o] ->
+  exists c', get (run (ops1 ++ ops2)) h = Some c' /\ c_fires c' = [o] /\ c_rid c' = c_rid c /\ c_twoway c' = c_twoway c.
+Proof. exact first_outcome_is_final. Qed.
+Print Assumptions C03_first_outcome_is_final.
+
+(* the pending-request table (Broker.waitingForAnswers) holds exactly the registered requests that have not fired *)
+Theorem C03_table_iff_pending : forall ops rid,
+  In rid (map fst (table (run ops))) <->
+  exists h c, get (run ops) h = Some c /\ c_tracked c = true /\ c_rid c = rid /\ c_fires c = [].
+Proof. exact table_iff_pending. Qed.
+Print Assumptions C03_table_iff_pending.
+
+(* request ids of registered requests are unique, positive (never the one-way id) and below the counter *)
+Theorem C03_reqids_unique_and_fresh : forall ops h1 h2 c1 c2,
+  get (run ops) h1 = Some c1 -> get (run ops) h2 = Some c2 -> c_tracked c1 = true -> c_tracked c2 = true ->
+  (c_rid c1 = c_rid c2 -> h1 = h2) /\ oneway_reqid < c_rid c1 < nextid (run ops).
+Proof. exact reqids_unique_and_fresh. Qed.
+Print Assumptions C03_reqids_unique_and_fresh.
+
+Theorem C03_table_keys_unique : forall ops, NoDup (map fst (table (run ops))).
+Proof. exact table_keys_unique. Qed.
+Print Assumptions C03_table_keys_unique.
+
+(* "after a connection is lost no request stays pending" and "fires exactly once ... with DeadReferenceError once
+   the connection is gone": in every reachable state in which the broker is disconnected and the eventual-send
+   queue is empty, the table is empty and every callRemote Deferred has fired exactly once *)
+Theorem C03_drained_after_loss : forall ops,
+  disconnected (run ops) = true -> evq (run ops) = [] ->
+  table (run ops) = [] /\
+  forall h c, get (run ops) h = Some c -> c_twoway c = true -> List.length (c_fires c) = 1%nat.
+Proof. exact drained_after_loss. Qed.
+Print Assumptions C03_drained_after_loss.
+
+(* ... and that state is reached: after any history, connectionLost/shutdown followed by as many turns of the
+   eventual queue as it has entries leaves nothing pending and every callRemote fired exactly once *)
+Theorem C03_loss_then_drain : forall ops o,
+  let s1 := run (ops ++ [Finish o]) in
+  let s2 := run_from s1 (repeat Turn (List.length (evq s1))) in
+  disconnected s2 = true /\ evq s2 = [] /\ table s2 = [] /\
+  List.length (calls s2) = List.length (calls (run ops)) /\
+  forall h c, get s2 h = Some c -> c_twoway c = true -> List.length (c_fires c) = 1%nat.
+Proof. exact loss_then_drain. Qed.
+Print Assumptions C03_loss_then_drain.
+
+(* a late answer / complete() / fail() on a request that has already been retired fires nothing and leaves
+   the table alone; a wire answer for its id is ignored *)
+Theorem C03_late_events_fire_nothing : forall ops h c,
+  get (run ops) h = Some c -> c_active c = false ->
+  calls (step (run ops) (Complete h)) = calls (run ops) /\
+  table (step (run ops) (Complete h)) = table (run ops) /\
+  (forall o, step (run ops) (Fail h o) = run ops) /\
+  (c_tracked c = true ->
+     step (run ops) (Answer (c_rid c)) = run ops /\ step (run ops) (Error (c_rid c)) = run ops /\
+     step (run ops) (AnswerViolation (c_rid c)) = run ops).
+Proof. exact late_events_fire_nothing. Qed.
+Print Assumptions C03_late_events_fire_nothing.
+
+(* answers for ids that are not pending change nothing *)
+Theorem C03_unknown_reqid_ignored : forall ops rid,
+  ~ In rid (map fst (table (run ops))) ->
+  step (run ops) (Answer rid) = run ops /\ step (run ops) (Error rid) = run ops /\
+  step (run ops) (AnswerViolation rid) = run ops.
+Proof. exact unknown_reqid_ignored. Qed.
+Print Assumptions C03_unknown_reqid_ignored.
+
+(* the only exception in the request machinery: KeyError from removeRequest when complete() runs on a registered,
+   already retired request; fail() and wire answers/errors never raise; the KeyError changes no Deferred and no entry *)
+Theorem C03_keyerror_only_from_late_complete : forall ops x,
+  raised (step (run ops) x) = raised (run ops) \/
+  (raised (step (run ops) x) = S (raised (run ops)) /\
+   exists h c, x = Complete h /\ get (run ops) h = Some c /\ c_tracked c = true /\ c_active c = false /\
+               calls (step (run ops) x) = calls (run ops) /\ table (step (run ops) x) = table (run ops)).
+Proof. exact keyerror_only_from_late_complete. Qed.
+Print Assumptions C03_keyerror_only_from_late_complete.
+
+(* a callRemote issued on a dead connection fails immediately with DeadReferenceError and is never registered *)
+Theorem C03_call_after_loss_is_dead : forall ops k,
+  disconnected (run ops) = true -> k <> KOneWay ->
+  let s' := step (run ops) (Call k) in
+  exists c, get s' (List.length (calls (run ops))) = Some c /\ c_fires c = [ODeadRef] /\ c_tracked c = false /\
+            table s' = table (run ops) /\ evq s' = evq (run ops).
+Proof. exact call_after_loss_is_dead. Qed.
+Print Assumptions C03_call_after_loss_is_dead.
